@@ -88,10 +88,11 @@ func runLargeOnce(c LargeCase, bound time.Duration) (v kit.Verdict, slow bool) {
 		// the relay's writer is inside the write of the first frame ...
 		kit.Eventually(bound, func() bool { return s.Duplex.StalledWrites() >= 1 })
 		// ... the relay reads the client's DATA and queues up to return credit ...
-		for i := 0; i < 8; i++ {
-			R.WriteData(1, kit.Bytes(3, 100), -1, false)
-		}
+		R.WriteData(1, kit.Bytes(3, 100), -1, false)
 		kit.Eventually(bound, func() bool { return s.Duplex.Pending() == 0 })
+		for i := 0; i < 7; i++ {
+			R.WriteData(1, kit.Bytes(3, 100), -1, false) // (more credit to return once the first is through)
+		}
 		time.Sleep(5 * time.Millisecond) // (sets the scene only; not part of the oracle)
 		// ... and the client's receive path recovers
 		s.Duplex.ResumeRelayWrites()
